@@ -141,6 +141,153 @@ def suite_ip(ctx, gen, maxlen, variants=("default",)):
         drift_to_c15(ctx, res)
 
 
+# ---------------------------------------------------------------- whole addresses
+
+def classify_email(ctx, v, optbits=0):
+    w = v["what"]
+    tld = v["opts"] % 2 if w not in ("decision", "decision-tld") else (1 if w == "decision-tld" else 0)
+    case = {"kind": "email", "mode": v["mode"], "tld_check": tld, "in": v["in"], "text": vlib.bytes_to_text(v["in"]),
+            "expected": v["exp"], "got": v["got"], "model": v["model"], "what": w}
+    if optbits:
+        add_violation(ctx, "C17", "address outcome under build options %d: %s" % (optbits, w), case)
+        return
+    if w == "decision":
+        add_violation(ctx, "C01", "address decision", case)
+    elif w == "decision-tld":
+        exp, got = v["exp"], v["got"]
+        if exp == 8 or got == 8:
+            add_violation(ctx, "C09", "reserved-domain classification", case)
+        elif exp in range(1, 10) or exp in (-23, -26) or got in range(1, 10):
+            add_violation(ctx, "C07", "TLD classification", case)
+        else:
+            add_violation(ctx, "C01", "address decision (tld_check on)", case)
+    elif w in ("flag", "record"):
+        add_violation(ctx, "C16", "result record: " + w, case)
+    elif w in ("composition", "composition-idn", "eav_setup refused a defined mode"):
+        add_violation(ctx, "C01", "high-level call differs from the composition of the public validators: " + w, case)
+    elif w in ("eav-level", "eav-message"):
+        add_violation(ctx, "C01", "eav_is_email differs from the per-mode function: " + w, case)
+        add_violation(ctx, "C15", "eav_is_email return/errcode/message inconsistent: " + w, case)
+    elif w.startswith("cross"):
+        add_violation(ctx, "C12", "modes disagree: " + w, case)
+
+
+def email_drift(ctx, res):
+    if not os.path.exists(res["drift_path"]):
+        return
+    n, bad = validate_trace(ctx, "Trace_Func", res["drift_path"])
+    for (ln, ev, note) in bad:
+        case = {"kind": ev["e"], "mode": ev.get("mode"), "tld_check": ev.get("tld"), "in": ev["in"],
+                "text": vlib.bytes_to_text(ev["in"]), "rc": ev["rc"], "fl": ev.get("fl"), "idn": ev.get("idn"),
+                "conv_code": ev.get("cc"), "conv_out": ev.get("co"), "model": ev.get("mrc")}
+        rc = ev["rc"]
+        if ev.get("mode") == 6531 and "cc" in ev:
+            add_violation(ctx, "C10", "mode 6531 outcome does not follow from the converter's answer", case)
+            if ev.get("cc", 0) != 0:
+                add_violation(ctx, "C19", "IDN failure not reported as such", case)
+        if rc is not None and rc > 0:
+            add_violation(ctx, "C07", "TLD class differs from the table", case)
+        add_violation(ctx, "C15", "reported reason does not hold of the input", case)
+        add_violation(ctx, "C16", "result record inconsistent", case)
+
+
+def run_email_vectors(ctx, r, tag, optbits=0, variants=("default",)):
+    sample_vectors(ctx, r["out"])
+    for var in variants:
+        b = build(ctx, var, optbits)
+        res = replay(ctx, b, r["out"], tag)
+        crash_violation(ctx, res, ["C06", ctx.prop])
+        for v in res["viol"]:
+            if v["kind"] == "email":
+                classify_email(ctx, v, optbits)
+        email_drift(ctx, res)
+
+
+def suite_email(ctx, gen, maxlen, optbits=0, variants=("default",)):
+    r = tlc_ok(ctx, "MC_Email", cfg({"MaxLen": maxlen, "Gen": gen, "OptBits": optbits}))
+    run_email_vectors(ctx, r, "email-g%d-l%d-o%d" % (gen, maxlen, optbits), optbits, variants)
+
+
+def suite_tld(ctx, part, rowmod=8, rowrem=None, variants=("default",)):
+    if rowrem is None:
+        rowrem = ctx.seed % rowmod
+    r = tlc_ok(ctx, "MC_Tld", cfg({"Part": part, "RowMod": rowmod, "RowRem": rowrem}))
+    run_email_vectors(ctx, r, "tld-p%d-%d-%d" % (part, rowmod, rowrem), 0, variants)
+
+
+def c01(ctx):
+    suite_email(ctx, 2, 0)
+    suite_email(ctx, 1, 5 if ctx.quick() else 7)
+    return finish(ctx, "model_checking",
+                  "TLC enumerates addresses: all strings over {a . @ \" [ ] 1 :} up to MaxLen and families (local-part pool x domain pool, "
+                  "local parts of 58..70 octets, several '@'); per (mode, tld_check) layer P pins decision/code/flag; each vector is "
+                  "executed through is_*_email, compared with the composition of the public per-part validators on L and D, and through "
+                  "eav_init/eav_setup/eav_is_email")
+
+
+def c07(ctx):
+    suite_tld(ctx, 1, 8 if ctx.quick() else 1, None if ctx.quick() else 0)
+    return finish(ctx, "model_checking",
+                  "every row of data/punycode.csv (of the tree under test) in lower/UPPER/mixed case behind 1-4 labels, as single label, "
+                  "in U-label form; near misses (every proper prefix and suffix, single substitutions, one-character extensions, listed "
+                  "label first with unlisted last) of the selected rows (quick: one row in 8 chosen by the seed; thorough: all); "
+                  "class pinned by TldClassP; four modes, tld_check off and on")
+
+
+def c09(ctx):
+    suite_tld(ctx, 2)
+    return finish(ctx, "model_checking",
+                  "reserved names (test, example, invalid, localhost, onion, example.com/net/org) behind 0-3 labels with every length 1..63 "
+                  "in each position, three case patterns, root dot, and every one-edit neighbour (substitution, deletion, insertion) of "
+                  "each reserved name; class pinned by IsReserved; four modes")
+
+
+def c12(ctx):
+    q = ctx.quick()
+    suite_local(ctx, 2, 5 if q else 6)
+    suite_email(ctx, 2, 0)
+    suite_email(ctx, 1, 5 if q else 7)
+    suite_ip(ctx, 2, 0)
+    suite_tld(ctx, 2)
+    if not q:
+        suite_tld(ctx, 1, 4)
+    return finish(ctx, "model_checking",
+                  "relations evaluated on the observed results of the four modes for the same input (the spec marks the inputs to "
+                  "which each relation applies): identical code for pure-ASCII quote-free local parts (6531: or IDN error), "
+                  "5321-accept implies 822-accept, identical domain verdict/class/flags across the ASCII modes; inputs = all local "
+                  "parts and addresses enumerated by MC_Local / MC_Email / MC_Ip / MC_Tld")
+
+
+def c16(ctx):
+    q = ctx.quick()
+    suite_email(ctx, 2, 0)
+    suite_email(ctx, 1, 5 if q else 7)
+    suite_ip(ctx, 2, 0)
+    suite_tld(ctx, 2)
+    suite_tld(ctx, 1, 16 if q else 2)
+    return finish(ctx, "model_checking",
+                  "result record of every enumerated address in four modes x tld_check: at most one flag, exactly one on acceptance and "
+                  "equal to the form of the domain, none when a half is syntactically invalid, rc = 0 / class / negative as pinned by "
+                  "EmailP; unpredicted records validated by TLC (Trace_Func.EmailOk)")
+
+
+def c15(ctx):
+    q = ctx.quick()
+    suite_local(ctx, 2, 5 if q else 6)
+    suite_local(ctx, 4, 5 if q else 6)
+    suite_host(ctx, 2, 0)
+    suite_host(ctx, 1, 5 if q else 7)
+    suite_ip(ctx, 2, 0)
+    suite_email(ctx, 2, 0)
+    suite_email(ctx, 1, 5 if q else 6)
+    suite_tld(ctx, 2)
+    suite_tld(ctx, 1, 16 if q else 4)
+    return finish(ctx, "model_checking",
+                  "every code the model returns satisfies its truth predicate (TLC invariant on every enumerated state); every observed code "
+                  "either equals the model's or is validated by TLC against the truth predicates (drift trace); eav_is_email return value, "
+                  "errcode and message checked against the result code on every address vector")
+
+
 def c04(ctx):
     suite_host(ctx, 2, 0)
     suite_host(ctx, 1, 6 if ctx.quick() else 8)
@@ -185,7 +332,8 @@ def c03(ctx):
                   "decision compared with well-formed-UTF-8 + RFC 5321 grammar over code points")
 
 
-PROPS = {"C02": c02, "C03": c03, "C04": c04, "C05": c05}
+PROPS = {"C01": c01, "C02": c02, "C03": c03, "C04": c04, "C05": c05, "C07": c07, "C09": c09,
+         "C12": c12, "C15": c15, "C16": c16}
 
 
 def replay_file(ctx, path):
